@@ -94,6 +94,16 @@ var sites = []siteSpec{
 	{"pkg/v2/ocr.go", "ocrPlugin.Report"},
 	{"pkg/v2/ocr.go", "ocrPlugin.Observation"},
 	{"tools/simulator/util/sort.go", "SortedKeyMap.Keys"},
+	{"pkg/v3/stores/metadata_store.go", "orderedMap.Keys"},
+	{"pkg/v3/stores/metadata_store.go", "orderedMap.Delete"},
+	{"pkg/v3/stores/metadata_store.go", "orderedMap.Add"},
+	{"pkg/v3/stores/metadata_store.go", "expiringRecord.expired"},
+	{"pkg/v3/stores/metadata_store.go", "metadataStore.viewLogRecoveryProposal"},
+	{"pkg/v3/stores/metadata_store.go", "metadataStore.viewConditionalProposal"},
+	{"pkg/v3/stores/proposal_queue.go", "proposalQueueRecord.expired"},
+	{"pkg/v3/stores/proposal_queue.go", "proposalQueue.Dequeue"},
+	{"pkg/v3/plugin/hooks/remove_from_metadata.go", "RemoveFromMetadataHook.RunHook"},
+	{"pkg/v3/plugin/hooks/add_to_proposalq.go", "AddToProposalQHook.RunHook"},
 }
 
 // types whose methods are checked for lock discipline: every method that
